@@ -123,8 +123,8 @@ func (k *kase) oracleCounted(st step, moved *cfgGen) {
 		what = "counting is disabled in this configuration"
 	case st.op == 'A' && n != 0:
 		what = "the client went away (context.Canceled is not the upstream's failure)"
-	case st.op == 'O' && answerStatus(st.out) != 0 && counting && n != wantStrikes(statusTable[moved.st.s], answerStatus(st.out)):
-		what = fmt.Sprintf("status %d matches %d of the unhealthy_status entries %v", answerStatus(st.out), wantStrikes(statusTable[moved.st.s], answerStatus(st.out)), statusTable[moved.st.s])
+	case st.op == 'O' && answerStatus(st.out) != 0 && counting && n != wantStrikes(statusTable[moved.st.s], answerStatus(st.out))+k.slowStrike(st, moved):
+		what = fmt.Sprintf("status %d matches %d of the unhealthy_status entries %v and %d strike(s) are due for latency", answerStatus(st.out), wantStrikes(statusTable[moved.st.s], answerStatus(st.out)), statusTable[moved.st.s], k.slowStrike(st, moved))
 	case st.op == 'O' && st.out == "rst" && counting && n < 1:
 		what = "the upstream closed the connection without answering"
 	case st.op == 'O' && st.out == "rst" && counting && n > 1+moved.st.r:
@@ -140,6 +140,14 @@ func (k *kase) oracleCounted(st step, moved *cfgGen) {
 // wantStrikes: how many unhealthy_status entries a status code matches — an entry is either the
 // code itself or, below 100, a class (5 = 5xx).  Written from the documentation, not from
 // caddyhttp.StatusCodeMatches.
+// slowStrike: one more strike when the round trip took at least unhealthy_latency.
+func (k *kase) slowStrike(st step, c *cfgGen) int {
+	if (st.out == "sl" || k.lastAged) && c.st.lat {
+		return 1
+	}
+	return 0
+}
+
 func wantStrikes(entries []int, code int) int {
 	n := 0
 	for _, e := range entries {
